@@ -405,7 +405,9 @@ def evaluate_set(s, wd, cfg, rng, stats):
             t = texts[fn]
             if t is None:
                 continue
-            nlines = t.count("\n") + 1
+            # the header's line number is ariadne's, which also breaks lines at a
+            # bare CR, VT, FF, NEL and the Unicode line/paragraph separators
+            nlines = 1 + sum(t.count(c) for c in ("\n", "\r", "\x0b", "\x0c", "\x85", "\u2028", "\u2029"))
             if int(line) < 1 or int(line) > nlines:
                 viol.append(("location_line_out_of_range", "%s:%s:%s but the file has %d lines" % (fn, line, col, nlines), {}))
     seen = {}
@@ -427,7 +429,8 @@ def check_locations_structured(s, wd, stats):
     if len(order) != len(s["order"]):
         return []
     spec = {"groups": [[{"name": n, "source": texts[n]} for n in order]],
-            "ops": [{"g": 0, "m": m} for m in range(len(order))], "link": False, "refs": False, "stop_on_error": True}
+            "ops": [{"g": 0, "m": m} for m in range(len(order))], "link": False, "refs": False, "stop_on_error": True,
+            "surface_first": True}
     with open(os.path.join(wd, "spec.json"), "w") as f:
         json.dump(spec, f)
     r = run_proc([PWORKER, "history", "spec.json"], wd, sim_env(base_env(), entropy=1))
